@@ -71,19 +71,12 @@ func (sc *scenario) expire() bool {
 
 // expectedBeforeError: the expected input events whose bytes were all handed to the tty before the injected read error
 func (sc *scenario) expectedSteady() []string {
-	errStep := -1
-	for i, st := range sc.feed {
-		if st == "e" {
-			errStep = i
-			break
-		}
-	}
-	if errStep < 0 {
+	if sc.errCutoff < 0 {
 		return sc.exp
 	}
 	var out []string
 	for i, e := range sc.exp {
-		if i < len(sc.expChunk) && sc.expChunk[i] < errStep {
+		if i < len(sc.expChunk) && sc.expChunk[i] < sc.errCutoff {
 			out = append(out, e)
 		}
 	}
